@@ -479,9 +479,13 @@ def main(pid, tier):
     for ex in execs[:1] + execs[-2:]:
         ck.sample(ex[:3] + ex[-1:])
     ck.phase("validate")
+    from checks import rtfs_mt
+    rtfs_mt.run(ck, pid, tier, bdir, drv)
+    ck.phase("two_threads")
     ck.assumptions += ["SIGKILL is delivered at system call entry by strace (the call is not executed): exactly 'between two system calls'",
                        "error injection skips the system call (no partial effect); truthful short writes are not injected here",
-                       "single-threaded scenarios (threads write disjoint directories; races are C11)"]
+                       "single-threaded scenarios + two-thread programs whose threads run one after the other "
+                       "(threads write disjoint directories; races are C11)"]
     return ck.finish(rule="cases = (scenario, system call index[, errno]) pairs: every call index of every scenario; "
                           "all are distinct crash/fault points")
 
